@@ -79,7 +79,7 @@ class Shard:
 
     def __init__(self) -> None:
         self.evaluations = 0
-        self.cases: Dict[str, bool] = {}      # digest -> nontrivial
+        self.cases: Dict[str, int] = {}   # digest -> #distinct nontrivial
         self.counters: Dict[str, float] = {}
         self.samples: List[Any] = []
         self.violations: List[dict] = []
@@ -91,11 +91,14 @@ class Shard:
 
     # -- coverage -----------------------------------------------------
     def case(self, descriptor: Any, nontrivial: bool = True,
-             sample: Any = None, n: int = 1) -> None:
-        """Register `n` executed evaluations sharing one distinct descriptor."""
+             sample: Any = None, n: int = 1, distinct: int = 1) -> None:
+        """Register `n` executed evaluations under one descriptor, of which
+        `distinct` are pairwise distinct non-trivial cases (default: the
+        descriptor itself is the one distinct case)."""
         self.evaluations += n
         h = digest(descriptor)
-        self.cases[h] = self.cases.get(h, False) or bool(nontrivial)
+        self.cases[h] = max(self.cases.get(h, 0),
+                            int(distinct) if nontrivial else 0)
         if sample is not None and len(self.samples) < self.MAX_SAMPLES:
             self.samples.append(jsonable(sample))
 
@@ -153,7 +156,7 @@ class Run:
         self.seed = seed
         self.t0 = time.time()
         self.evaluations = 0
-        self.cases: Dict[str, bool] = {}
+        self.cases: Dict[str, int] = {}
         self.counters: Dict[str, float] = {}
         self.samples: List[Any] = []
         self.violations: List[dict] = []
@@ -168,7 +171,7 @@ class Run:
     def absorb(self, d: dict) -> None:
         self.evaluations += d['evaluations']
         for h, nt in d['cases'].items():
-            self.cases[h] = self.cases.get(h, False) or nt
+            self.cases[h] = max(self.cases.get(h, 0), int(nt))
         for k, v in d['counters'].items():
             self.counters[k] = self.counters.get(k, 0) + v
         for s in d['samples']:
@@ -245,7 +248,7 @@ class Run:
         # anti-vacuity
         missing = [c for c in getattr(mod, 'REQUIRED_COUNTERS', [])
                    if self.counters.get(c, 0) <= 0]
-        distinct_nt = sum(1 for v in self.cases.values() if v)
+        distinct_nt = sum(int(v) for v in self.cases.values())
         inconclusive_reason = None
         if self.shards_bad:
             inconclusive_reason = f'{self.shards_bad} shard(s) died/timed out'
